@@ -130,6 +130,10 @@ pub enum HOp {
     SetRate(f64),
     /// allow_ext_opcodes / allow_buffer_opcodes through the pub fields
     SetFlags(bool, bool),
+    /// unsafe_mutations through the pub field, mutators re-created for the new mode
+    SetUnsafe(bool),
+    /// the mutator list replaced through the pub field
+    SetMutators(Vec<u8>),
 }
 
 impl HOp {
@@ -140,6 +144,8 @@ impl HOp {
             HOp::SetRange(a, b) => json!({"op": "set_range", "min": a, "max": b}),
             HOp::SetRate(r) => json!({"op": "set_rate", "rate_bits": format!("{:016x}", r.to_bits())}),
             HOp::SetFlags(e, b) => json!({"op": "set_flags", "allow_ext": e, "allow_buffer": b}),
+            HOp::SetUnsafe(u) => json!({"op": "set_unsafe", "unsafe": u}),
+            HOp::SetMutators(m) => json!({"op": "set_mutators", "mutators": m.iter().map(|&k| MUT_NAMES[k as usize]).collect::<Vec<_>>()}),
         }
     }
     pub fn from_json(v: &Value) -> Result<Self, String> {
@@ -154,6 +160,15 @@ impl HOp {
                 u64::from_str_radix(v["rate_bits"].as_str().ok_or("rate_bits")?, 16).map_err(|e| e.to_string())?,
             ))),
             Some("set_flags") => Ok(HOp::SetFlags(v["allow_ext"].as_bool().unwrap_or(false), v["allow_buffer"].as_bool().unwrap_or(false))),
+            Some("set_unsafe") => Ok(HOp::SetUnsafe(v["unsafe"].as_bool().unwrap_or(false))),
+            Some("set_mutators") => Ok(HOp::SetMutators(
+                v["mutators"]
+                    .as_array()
+                    .ok_or("mutators")?
+                    .iter()
+                    .filter_map(|m| MUT_NAMES.iter().position(|n| Some(*n) == m.as_str()).map(|p| p as u8))
+                    .collect(),
+            )),
             _ => Err("hop".into()),
         }
     }
